@@ -34,7 +34,21 @@ def _initial_args():
         "MK": {"max_nfev": 6},
         "NM": ["feat_con_apr_flatness", "feat_con_apr_size",
                "feat_con_bln_slope"],
+        "TS": _training_tuple(),
     }
+
+
+_TS = []
+
+
+def _training_tuple():
+    """an in-memory training set (samples, response) of the caller's"""
+    if not _TS:
+        from nanite.rate.rater import IndentationRater
+        X, y = IndentationRater.load_training_set(
+            IndentationRater.get_training_set_path("zef18"))
+        _TS.append((np.array(X[::3], copy=True), np.array(y[::3], copy=True)))
+    return (_TS[0][0].copy(), _TS[0][1].copy())
 
 
 #: call ops: (api, {kwarg: arg-name or literal})
@@ -62,6 +76,10 @@ CALLS = {
     "get_pi": ("get_initial_fit_parameters", {}),
     "rate": ("rate_quality", {"regressor": "Decision Tree",
                               "training_set": "zef18", "names": "@NM"}),
+    "rate_ts": ("rate_quality", {"regressor": "Extra Trees",
+                                 "training_set": "@TS"}),
+    "rate_ts_dt": ("rate_quality", {"regressor": "Decision Tree",
+                                    "training_set": "@TS"}),
 }
 
 EDITS = {
@@ -88,6 +106,11 @@ EDITS = {
         0, -9e-7 if a[0] != -9e-7 else -5e-7)),
     "MK.max_nfev": ("MK", lambda a: a.__setitem__(
         "max_nfev", 400 if a["max_nfev"] != 400 else 6)),
+    # the caller re-labels / rescales his in-memory training set in place
+    "TS.y": ("TS", lambda a: a[1].__setitem__(
+        slice(None), (a[1] * 7 + 3) % 11)),
+    "TS.X": ("TS", lambda a: a[0].__setitem__(
+        (slice(None), 0), a[0][:, 0] * 1.5 + 0.1)),
     "NM+=feat": ("NM", lambda a: a.append("feat_con_idt_sum")
                  if "feat_con_idt_sum" not in a
                  else a.remove("feat_con_idt_sum")),
@@ -122,10 +145,11 @@ class Twin(hist.Driver):
     prop = PROP
     name = "twin"
 
-    def __init__(self, calls=None, edits=None, name=None):
-        calls = calls or list(CALLS)
-        edits = edits or list(EDITS)
+    def __init__(self, calls=None, edits=None, name=None, prefit=False):
+        calls = calls or [c for c in CALLS if not c.startswith("rate_ts")]
+        edits = edits or [e for e in EDITS if not e.startswith("TS.")]
         self.ops = [["call", c] for c in calls] + [["edit", e] for e in edits]
+        self.prefit = prefit
         if name:
             self.name = name
 
@@ -145,6 +169,11 @@ class Twin(hist.Driver):
         w.args_t = _initial_args()
         w.dirty = set()
         w.viol = []
+        if self.prefit:
+            for c in (w.a, w.t):
+                c.apply_preprocessing(["compute_tip_position",
+                                       "correct_tip_offset"])
+                c.fit_model(model_key="hertz_para")
         return w
 
     def apply(self, w, op):
@@ -188,16 +217,21 @@ class Twin(hist.Driver):
             w.viol.append(("alias-differs-from-twin", api, "exception",
                            f"aliased run: {ea}, by-value twin: {et}"))
         tc1 = cn.indent_canon(w.t)
+        passed = dict(w.__dict__.setdefault("passed", {}))
+        if api == "fit_model" and et is None:
+            for n in used:
+                w.passed[n] = before[n]
         for n in used:
             if n in w.dirty:
                 w.dirty.discard(n)
                 if tc1 != tc0:
                     stats["effective_edit:" + n] = 1
                 if n == "PI" and api == "fit_model" and et is None \
-                        and nt == 0:
-                    # every edit of the alphabet changes the value of an
-                    # initial parameter: the next fit that is handed the
-                    # parameters must notice and optimise again
+                        and nt == 0 and passed.get(n) != before[n]:
+                    # the initial parameters have other values than when
+                    # they were last handed to a fit (edits that cancel
+                    # each other are no change): the fit that is handed
+                    # them now must notice and optimise again
                     w.viol.append(("edit-not-noticed", api, n,
                                    "initial parameters were edited and "
                                    "passed again (to the by-value twin as "
@@ -229,7 +263,8 @@ class Twin(hist.Driver):
     def canon(self, w):
         return cn.digest([cn.indent_canon(w.a), cn.indent_canon(w.t),
                           {n: cn.digest(v) for n, v in w.args_a.items()},
-                          sorted(w.dirty), self.alias_sig(w)])
+                          sorted(w.dirty), self.alias_sig(w),
+                          sorted(w.__dict__.get("passed", {}).items())])
 
     def check_transition(self, pre, op, obs, w, hops):
         out = []
@@ -273,6 +308,11 @@ FOCUS = {
     "twin_pre": Twin(
         calls=["pre", "pre_details", "fit_pre", "fit", "rate"],
         edits=["L+=offset", "O.method", "NM+=feat"], name="twin_pre"),
+    # ratings of a fitted curve with an in-memory training set that the
+    # caller keeps and edits in place
+    "twin_rate": Twin(
+        calls=["rate_ts", "rate_ts_dt", "fit_k1"],
+        edits=["TS.y", "TS.X"], name="twin_rate", prefit=True),
 }
 DRIVERS = FOCUS
 
@@ -748,8 +788,10 @@ def replay(doc):
 
 def run(tier):
     rep = Report(PROP, tier, LEVEL)
-    plan = {"quick": [("twin", 2), ("twin_fit", 4), ("twin_pre", 4)],
-            "thorough": [("twin", 3), ("twin_fit", 5), ("twin_pre", 6)]}[tier]
+    plan = {"quick": [("twin", 2), ("twin_fit", 4), ("twin_pre", 4),
+                      ("twin_rate", 4)],
+            "thorough": [("twin", 3), ("twin_fit", 5), ("twin_pre", 6),
+                         ("twin_rate", 6)]}[tier]
     sc = hist.selfcheck_start(__name__, "twin_fit", [0, 1, 8, 1])
     eff = {}
     for name, depth in plan:
